@@ -20,6 +20,8 @@
 #include "system/SetupSystem.h"
 #include "util/TimeUtilityFunctions.h"
 #include <pthread.h>
+#include <signal.h>
+#include <memory>
 #include <sched.h>
 #include <thread>
 #include <atomic>
@@ -31,7 +33,7 @@
 #include "hookrt.h"
 using namespace muscle;
 
-enum { ROLE_OWNER = 0, ROLE_HELPER = 1, ROLE_INTERNAL = 2 };
+enum { ROLE_OWNER = 0, ROLE_HELPER = 1, ROLE_INTERNAL = 2, ROLE_SIGNALLER = 3 };
 enum { STYLE_DEFAULT = 0, STYLE_SELFIRST = 1, STYLE_MIXED = 2 };
 enum { REPLY_ECHO = 0, REPLY_BURST = 1, REPLY_SPARSE = 2, REPLY_NONE = 3 };
 enum { WHAT_MSG = 0x6d736721, WHAT_REPLY = 0x72706c79 };
@@ -57,6 +59,32 @@ static MessageRef MakeMsg(uint32 what, int snd, int seq, int b = -1)
    return m;
 }
 
+// ---- blocking-point bookkeeping, fed by the hooked sites (wrapper around hookrt::hook) and by the harness's own blocking calls.
+// g_block[role] == 1: that thread passed "queue found empty, about to block" (or a harness wait) and has not come back yet.
+static std::atomic<int> g_block[4];
+static std::atomic<long> g_ownerNotifies;          // empty->non-empty transitions of the reply queue announced so far (SEND_AFTER_ENQUEUE with the notify bit, internal thread)
+static long g_ownerFlushMark = 0;                   // owner thread only: g_ownerNotifies when an owner wait last came back from blocking
+static bool g_ownerLastWasBlock = false, g_ownerPassedBlock = false, g_ownerStaleAtBlock = false;   // owner thread only, reset before each receive call
+static pthread_t g_ownerTid;
+static void MyHook(int site, const void * obj, long arg)
+{
+   const int r = hookrt::role();
+   if (r == ROLE_OWNER || r == ROLE_INTERNAL) {
+      if (site == MVH_THREAD_WAIT_BEFORE_BLOCK) {
+         if (r == ROLE_OWNER) { if (!g_ownerPassedBlock) g_ownerStaleAtBlock = (g_ownerNotifies.load(std::memory_order_relaxed) > g_ownerFlushMark); g_ownerPassedBlock = true; g_ownerLastWasBlock = true; }
+         g_block[r].store(1, std::memory_order_relaxed);
+      }
+      else if (site == MVH_THREAD_WAIT_AFTER_DRAIN) {
+         if (r == ROLE_OWNER) { if (g_ownerLastWasBlock) g_ownerFlushMark = g_ownerNotifies.load(std::memory_order_relaxed); g_ownerLastWasBlock = false; }
+         g_block[r].store(0, std::memory_order_relaxed);
+      }
+      else if (site == MVH_THREAD_SEND_AFTER_ENQUEUE && r == ROLE_INTERNAL && (arg & 1)) g_ownerNotifies.fetch_add(1, std::memory_order_relaxed);
+   }
+   hookrt::hook(site, obj, arg);
+}
+static void BeforeOwnerReceive() { g_ownerLastWasBlock = false; g_ownerPassedBlock = false; g_ownerStaleAtBlock = false; }
+extern "C" void NoOpSignalHandler(int) {}          // async-signal-safe: does nothing; installed for SIGUSR1 without SA_RESTART
+
 // ---- the harness's ICallbackMechanism: a latched flag under a mutex; the dispatch thread (= the owner) waits for it UNTIMED
 class HarnessCallbackMechanism : public ICallbackMechanism {
 public:
@@ -80,7 +108,7 @@ struct Scenario;
 // ---- the Thread under test.  Everything the internal thread writes here is plain data that the owner reads only after a join.
 class EchoThread : public Thread {
 public:
-   EchoThread(bool sockets, int style, int replyMode, uint64_t seed, ICallbackMechanism * mech, Scenario * sink) : Thread(sockets, mech), _style(style), _replyMode(replyMode), _seed(seed), _incarnation(0), _waitError(false), _sendError(false), _idleWakeups(0), _recvCount(0), _sink(sink), _announce(false), _repliedTo(0) {}
+   EchoThread(bool sockets, int style, int replyMode, uint64_t seed, ICallbackMechanism * mech, Scenario * sink) : Thread(sockets, mech), _style(style), _replyMode(replyMode), _seed(seed), _incarnation(0), _waitError(false), _sendError(false), _idleWakeups(0), _recvCount(0), _sink(sink), _announce(false), _repliedTo(0), _ptid(0), _ptidValid(0), _repliesSent(0), _stampCap(0), _gateSeq(-1), _gateOpen(false) {}
    int _style, _replyMode; uint64_t _seed; int _incarnation;
    std::vector<uint32_t> _log;        // (snd << 24 | seq) per Message in arrival order, LOG_TOKEN for the NULL shutdown token
    bool _waitError; std::string _waitErrorText; bool _sendError;
@@ -88,6 +116,13 @@ public:
    std::atomic<long> _recvCount;       // relaxed, only for progress notes
    Scenario * _sink;                   // where MessageReceivedFromInternalThread() (owner thread, inside DispatchCallbacks) puts the replies
    bool _announce; std::mutex _rmu; std::condition_variable _rcv; long _repliedTo;   // regress witnesses only: "the replies to n Messages have been sent"
+   std::atomic<unsigned long> _ptid; std::atomic<int> _ptidValid;   // pthread id of the running incarnation (valid from its entry until the owner joined it)
+   std::atomic<long> _repliesSent; std::unique_ptr<std::atomic<uint64_t>[]> _stamp; long _stampCap;   // relaxed: GetRunTime64() after the i-th SendMessageToOwner() returned
+   void AllocStamps(long cap) { _stamp.reset(new std::atomic<uint64_t>[cap]); for (long i = 0; i < cap; i++) _stamp[i].store(0); _stampCap = cap; }
+   uint64_t StampOf(long i) const { return (i >= 0 && i < _stampCap) ? _stamp[i].load(std::memory_order_relaxed) : 0; }
+   int _gateSeq; bool _gateOpen;   // regress witnesses only: the replies to owner Message #_gateSeq are held back until OpenGate()
+   void CloseGateFor(int seq) { std::lock_guard<std::mutex> g(_rmu); _gateOpen = false; _gateSeq = seq; }
+   void OpenGate() { { std::lock_guard<std::mutex> g(_rmu); _gateOpen = true; } _rcv.notify_all(); }
    void WaitUntilRepliedTo(long n) { std::unique_lock<std::mutex> lk(_rmu); while (_repliedTo < n) _rcv.wait(lk); }
    virtual void MessageReceivedFromInternalThread(const MessageRef & m, uint32 numLeft);   // defined after Scenario
 
@@ -95,6 +130,7 @@ public:
    {
       hookrt::set_role(ROLE_INTERNAL); hookrt::t_rng ^= (uint32_t)(_seed >> 7) * 2u + (uint32_t)_incarnation * 977u; if (hookrt::t_rng == 0) hookrt::t_rng = 1;
       _incarnation++;
+      _ptid.store((unsigned long)pthread_self(), std::memory_order_relaxed); _ptidValid.store(1, std::memory_order_release);
       if (_style == STYLE_DEFAULT) { Thread::InternalThreadEntry(); return; }
       if (_style == STYLE_SELFIRST) {
          // the pattern of MessageTransceiverThread: block on the wake-up socket, then poll until the queue is empty
@@ -102,7 +138,9 @@ public:
          if (fd < 0) { _waitError = true; _waitErrorText = "GetInternalThreadWakeupSocket() has no file descriptor"; return; }
          while (true) {
             (void)sm.RegisterSocketForReadReady(fd);
+            g_block[ROLE_INTERNAL].store(1, std::memory_order_relaxed);
             io_status_t w = sm.WaitForEvents();
+            g_block[ROLE_INTERNAL].store(0, std::memory_order_relaxed);
             if (w.IsError()) { _waitError = true; _waitErrorText = std::string("SocketMultiplexer::WaitForEvents on the wake-up socket: ") + w.GetStatus()(); return; }
             MessageRef m; uint32 nl = 0; long n = 0; status_t s;
             while ((s = WaitForNextMessageFromOwner(m, 0, &nl)).IsOK()) { n++; if (MessageReceivedFromOwner(m, nl).IsError()) return; }
@@ -130,8 +168,13 @@ public:
       if (m()->what != WHAT_MSG || m()->FindInt32("snd", snd).IsError() || m()->FindInt32("seq", seq).IsError() || snd < 0 || snd > 100 || seq < 1 || seq >= (1 << 24)) { _log.push_back(LOG_INVALID); return B_NO_ERROR; }
       _log.push_back(((uint32_t)snd << 24) | (uint32_t)seq);
       _recvCount.fetch_add(1, std::memory_order_relaxed);
+      if (_announce && snd == 0) { std::unique_lock<std::mutex> lk(_rmu); while (seq == _gateSeq && !_gateOpen) _rcv.wait(lk); }
       const int n = NumReplies(_replyMode, snd, seq);
-      for (int b = 0; b < n; b++) if (SendMessageToOwner(MakeMsg(WHAT_REPLY, snd, seq, b)).IsError()) _sendError = true;
+      for (int b = 0; b < n; b++) {
+         if (SendMessageToOwner(MakeMsg(WHAT_REPLY, snd, seq, b)).IsError()) _sendError = true;
+         const long i = _repliesSent.load(std::memory_order_relaxed); if (i < _stampCap) _stamp[i].store(GetRunTime64(), std::memory_order_relaxed);
+         _repliesSent.store(i + 1, std::memory_order_relaxed);   // only after the send returned: the reply is in the queue and announced
+      }
       if (_announce) { { std::lock_guard<std::mutex> g(_rmu); _repliedTo++; } _rcv.notify_all(); }
       return B_NO_ERROR;
    }
@@ -157,10 +200,10 @@ static const struct { bool sockets; int style; bool callback; } COMBO[NCOMBO] = 
 static const char * KindName(int k) { return k == hookrt::K_YIELD ? "yield" : k == hookrt::K_SLEEP ? "sleep" : "spin"; }
 
 struct Params {
-   long k; uint64_t cs; bool sockets; int style; int replyMode; int nHelpers; int perSender; int pre; int maxRestarts; bool epilogue; bool callback, cbPure; int cbScript;
+   long k; uint64_t cs; bool sockets; int style; int replyMode; int nHelpers; int perSender; int pre; int maxRestarts; bool epilogue; bool callback, cbPure; int cbScript; bool signals; int sigTarget;
    std::string placement;
-   Params() : k(0), cs(1), sockets(true), style(STYLE_DEFAULT), replyMode(REPLY_ECHO), nHelpers(0), perSender(10), pre(0), maxRestarts(0), epilogue(false), callback(false), cbPure(false), cbScript(0) {}
-   std::string Show() const { return vh::fmt("mech=%s owner=%s style=%s reply=%s helpers=%d perSender=%d prequeued=%d placement=[%s]", sockets ? "socketpair" : "waitcondition", callback ? (cbPure ? "callback-only" : "callback+direct") : "direct", StyleName(style), ReplyName(replyMode), nHelpers, perSender, pre, placement.c_str()); }
+   Params() : k(0), cs(1), sockets(true), style(STYLE_DEFAULT), replyMode(REPLY_ECHO), nHelpers(0), perSender(10), pre(0), maxRestarts(0), epilogue(false), callback(false), cbPure(false), cbScript(0), signals(false), sigTarget(0) {}
+   std::string Show() const { return vh::fmt("mech=%s owner=%s signals=%s style=%s reply=%s helpers=%d perSender=%d prequeued=%d placement=[%s]", sockets ? "socketpair" : "waitcondition", callback ? (cbPure ? "callback-only" : "callback+direct") : "direct", !signals ? "no" : sigTarget == 0 ? "internal" : sigTarget == 1 ? "owner" : "both", StyleName(style), ReplyName(replyMode), nHelpers, perSender, pre, placement.c_str()); }
 };
 
 // arms one (site, role) in slot; returns its description
@@ -193,23 +236,29 @@ static std::string Classify(const std::vector<int> & got, int n, std::string & w
    return gap ? "reorder" : "";
 }
 
+static bool g_longTimedDisabled = false;   // after the first timed-wait violation of this process: no more multi-second waits (one witness per worker is enough)
+static const uint64_t LONG_WAIT_MICROS = 3000000, LONG_WAIT_MARGIN_MICROS = 1000000;
+
 struct Scenario {
    Params P; HarnessCallbackMechanism mech; EchoThread t; pthread_rwlock_t life; vh::Rng r;   // mech outlives t
    std::atomic<long> helperDue, helperSent, helpersDone, helperSendErrors;
    std::vector<std::thread> helpers;
+   std::thread signaller; bool signallerStarted; std::atomic<int> sigStop; std::atomic<long> sigBlockedInternal, sigBlockedOwner, sigElsewhere;
    int ownerSeq; long ownerDue, got; bool running, tokenPending, lastRecvEmpty, bad, giveUp;
    std::vector<Rep> replyLog; std::vector<int> ownerSeqAtToken;
    long idleInARow;
    // observation counters of this case
-   long nPollOk, nPollEmpty, nTimedOk, nTimedOut, nBlockOk, nBlockIdle, nSelect, nSelectIdle, nRestarts, nStarts, nSentAfterRequest, nSentWhileStopped, nPre, nRepliesWhileStopped, nUnspecTimedStopped, nCbDispatch, nCbReplies, nCbIdle, nCbWaits, nCbSendsInside, nCbScriptFired;
+   long nPollOk, nPollEmpty, nTimedOk, nTimedOut, nBlockOk, nBlockIdle, nSelect, nSelectIdle, nRestarts, nStarts, nSentAfterRequest, nSentWhileStopped, nPre, nRepliesWhileStopped, nUnspecTimedStopped, nCbDispatch, nCbReplies, nCbIdle, nCbWaits, nCbSendsInside, nCbScriptFired, nLongTimed, nLongTimedOk, nLongTimedAlreadyQueued, nTimedAlreadyQueued, nStaleHist, nLongTimedUnjudged, nLongTimedIdleSockets;
 
-   Scenario(const Params & p) : P(p), t(p.sockets, p.style, p.replyMode, p.cs, p.callback ? &mech : NULL, this), r(p.cs ^ 0xC11C11ULL), helperDue(0), helperSent(0), helpersDone(0), helperSendErrors(0),
+   Scenario(const Params & p) : P(p), t(p.sockets, p.style, p.replyMode, p.cs, p.callback ? &mech : NULL, this), r(p.cs ^ 0xC11C11ULL), helperDue(0), helperSent(0), helpersDone(0), helperSendErrors(0), signallerStarted(false), sigStop(0), sigBlockedInternal(0), sigBlockedOwner(0), sigElsewhere(0),
       ownerSeq(0), ownerDue(0), got(0), running(false), tokenPending(false), lastRecvEmpty(true), bad(false), giveUp(false), idleInARow(0),
-      nPollOk(0), nPollEmpty(0), nTimedOk(0), nTimedOut(0), nBlockOk(0), nBlockIdle(0), nSelect(0), nSelectIdle(0), nRestarts(0), nStarts(0), nSentAfterRequest(0), nSentWhileStopped(0), nPre(0), nRepliesWhileStopped(0), nUnspecTimedStopped(0), nCbDispatch(0), nCbReplies(0), nCbIdle(0), nCbWaits(0), nCbSendsInside(0), nCbScriptFired(0)
+      nPollOk(0), nPollEmpty(0), nTimedOk(0), nTimedOut(0), nBlockOk(0), nBlockIdle(0), nSelect(0), nSelectIdle(0), nRestarts(0), nStarts(0), nSentAfterRequest(0), nSentWhileStopped(0), nPre(0), nRepliesWhileStopped(0), nUnspecTimedStopped(0), nCbDispatch(0), nCbReplies(0), nCbIdle(0), nCbWaits(0), nCbSendsInside(0), nCbScriptFired(0), nLongTimed(0), nLongTimedOk(0), nLongTimedAlreadyQueued(0), nTimedAlreadyQueued(0), nStaleHist(0), nLongTimedUnjudged(0), nLongTimedIdleSockets(0)
    {
       pthread_rwlockattr_t a; pthread_rwlockattr_init(&a); pthread_rwlockattr_setkind_np(&a, PTHREAD_RWLOCK_PREFER_WRITER_NONRECURSIVE_NP);
       if (pthread_rwlock_init(&life, &a) != 0) { fprintf(stderr, "HARNESS-ABORT: pthread_rwlock_init\n"); abort(); }
       pthread_rwlockattr_destroy(&a);
+      t.AllocStamps(((long)P.perSender * (1 + P.nHelpers) + 64) * 6 + 64);
+      for (int i = 0; i < 4; i++) g_block[i].store(0); g_ownerNotifies.store(0); g_ownerFlushMark = 0; BeforeOwnerReceive();
    }
    ~Scenario() { pthread_rwlock_destroy(&life); }
 
@@ -242,20 +291,58 @@ struct Scenario {
    bool MayBlock() { return running && !tokenPending && !giveUp && got < Due(); }
    void Poll()
    {
+      const long sentBefore = t._repliesSent.load(std::memory_order_relaxed), gotBefore = got;   // sent (send returned) but not yet received => it is in the queue
       MessageRef rep; uint32 nl = 0; status_t s = t.GetNextReplyFromInternalThread(rep, 0, &nl);
-      if (s.IsOK()) { HandleReply(rep); nPollOk++; } else if (s == B_TIMED_OUT) { lastRecvEmpty = true; nPollEmpty++; } else Fail("poll|unexpected_status", std::string("GetNextReplyFromInternalThread(0) returned ") + s());
+      if (s.IsOK()) { HandleReply(rep); nPollOk++; }
+      else if (s == B_TIMED_OUT) { lastRecvEmpty = true; nPollEmpty++; if (sentBefore > gotBefore) Fail("poll|empty_with_message_queued", vh::fmt("GetNextReplyFromInternalThread(0) found nothing although %ld replies had been sent (SendMessageToOwner returned) and only %ld received before the call", sentBefore, gotBefore)); } else Fail("poll|unexpected_status", std::string("GetNextReplyFromInternalThread(0) returned ") + s());
    }
    void Timed()
    {
       if (!running) { nUnspecTimedStopped++; Poll(); return; }   // unspecified corner: a timed wait on a stopped socket-pair Thread has no socket to wait on
+      if (MayBlock() && !g_longTimedDisabled && !bad && r.R(3) == 0) {
+         if (r.R(2)) { while (!lastRecvEmpty && !bad) Poll(); }   // the history the timed wait is sensitive to: replies picked up without blocking, then block on an empty queue
+         LongTimed(false); return;
+      }
+      const long sentBefore = t._repliesSent.load(std::memory_order_relaxed), gotBefore = got;
+      BeforeOwnerReceive();
       MessageRef rep; status_t s = t.GetNextReplyFromInternalThread(rep, GetRunTime64() + r.R(400));
-      if (s.IsOK()) { HandleReply(rep); nTimedOk++; } else if (s == B_TIMED_OUT) { lastRecvEmpty = true; nTimedOut++; } else Fail("timed_wait|unexpected_status", std::string("GetNextReplyFromInternalThread(soon) returned ") + s());
+      g_block[ROLE_OWNER].store(0, std::memory_order_relaxed);
+      if (s.IsOK()) { HandleReply(rep); nTimedOk++; if (!g_ownerPassedBlock) nTimedAlreadyQueued++; }
+      else if (s == B_TIMED_OUT) { lastRecvEmpty = true; nTimedOut++; if (sentBefore > gotBefore) Fail("timed_wait|timed_out_with_message_queued", vh::fmt("GetNextReplyFromInternalThread(soon) returned B_TIMED_OUT although %ld replies had been sent (SendMessageToOwner returned) and only %ld received before the call began", sentBefore, gotBefore)); } else Fail("timed_wait|unexpected_status", std::string("GetNextReplyFromInternalThread(soon) returned ") + s());
+   }
+   // a timed wait with a deadline seconds away, begun only when a reply is due (so it returns at once on a healthy tree).  Verdicts by RETURN
+   // CODE, never by lateness: (A) B_TIMED_OUT although a reply was already queued before the call; (B) wait-condition mechanism only, where
+   // B_TIMED_OUT is returned at the deadline and never earlier: B_TIMED_OUT although the next reply's send had returned (enqueued and notified,
+   // time-stamped by the sender afterwards) more than a second before the deadline the receiver chose itself.  A slow sender only makes the
+   // stamp later (no verdict); a slow receiver still finds the notification pending and gets the Message, however late it runs.
+   void LongTimed(bool force)
+   {
+      if (!force && !MayBlock()) { Poll(); return; }
+      const long sentBefore = t._repliesSent.load(std::memory_order_relaxed), gotBefore = got;
+      const uint64 deadline = GetRunTime64() + LONG_WAIT_MICROS;
+      Note("owner in GetNextReplyFromInternalThread(now + 3 s), a reply is due");
+      BeforeOwnerReceive();
+      MessageRef rep; status_t s = t.GetNextReplyFromInternalThread(rep, deadline);
+      g_block[ROLE_OWNER].store(0, std::memory_order_relaxed);
+      nLongTimed++; if (!P.sockets && g_ownerPassedBlock && g_ownerStaleAtBlock) nStaleHist++;
+      if (s.IsOK()) { HandleReply(rep); nLongTimedOk++; if (!g_ownerPassedBlock) nLongTimedAlreadyQueued++; }
+      else if (s == B_TIMED_OUT) {
+         lastRecvEmpty = true;
+         const long sentNow = t._repliesSent.load(std::memory_order_relaxed); const uint64_t st = t.StampOf(gotBefore);
+         if (sentBefore > gotBefore) { g_longTimedDisabled = true; Fail("timed_wait|timed_out_with_message_queued", vh::fmt("GetNextReplyFromInternalThread(now + 3 s) returned B_TIMED_OUT although %ld replies had been sent (SendMessageToOwner returned) and only %ld received before the call began", sentBefore, gotBefore)); }
+         else if (!P.sockets && sentNow > gotBefore && st != 0 && st + LONG_WAIT_MARGIN_MICROS < deadline) { g_longTimedDisabled = true; Fail("timed_wait|timed_out_with_message_queued", vh::fmt("wait-condition Thread: GetNextReplyFromInternalThread(deadline) returned B_TIMED_OUT although the next reply (#%ld in sending order) was queued and announced %llu us before that deadline (its SendMessageToOwner had returned by then); stale notification pending when the owner blocked: %s", gotBefore + 1, (unsigned long long)(deadline - st), g_ownerStaleAtBlock ? "yes" : "no")); }
+         else if (P.sockets) nLongTimedIdleSockets++;   // socket pair: an early return without a Message is legal (stale signal byte, interrupted select)
+         else nLongTimedUnjudged++;
+      }
+      else Fail("timed_wait|unexpected_status", std::string("GetNextReplyFromInternalThread(now + 3 s) returned ") + s());
    }
    void Block()
    {
       if (!MayBlock()) { Poll(); return; }
+      BeforeOwnerReceive();
       Note("owner in GetNextReplyFromInternalThread(MUSCLE_TIME_NEVER)");
       MessageRef rep; status_t s = t.GetNextReplyFromInternalThread(rep, MUSCLE_TIME_NEVER);
+      g_block[ROLE_OWNER].store(0, std::memory_order_relaxed);
       if (s.IsOK()) { HandleReply(rep); nBlockOk++; } else if (s == B_TIMED_OUT) { nBlockIdle++; lastRecvEmpty = true; Idle("GetNextReplyFromInternalThread(MUSCLE_TIME_NEVER)"); } else { Fail("blocking_wait|unexpected_status", std::string("GetNextReplyFromInternalThread(MUSCLE_TIME_NEVER) returned ") + s()); giveUp = true; }
    }
    // owner-side select-first (the way a ReflectServer owns a Thread): sound only when the owner's last dequeue attempt found the queue
@@ -269,7 +356,9 @@ struct Scenario {
       if (fd < 0) { Fail("owner_wakeup_socket|missing", "GetOwnerWakeupSocket() has no file descriptor while the internal thread is running"); giveUp = true; return; }
       Note("owner in untimed select on GetOwnerWakeupSocket()");
       SocketMultiplexer sm; (void)sm.RegisterSocketForReadReady(fd);
+      g_block[ROLE_OWNER].store(1, std::memory_order_relaxed);
       io_status_t w = sm.WaitForEvents();
+      g_block[ROLE_OWNER].store(0, std::memory_order_relaxed);
       if (w.IsError()) { Fail("owner_wakeup_socket|wait_error", std::string("WaitForEvents: ") + w.GetStatus()()); giveUp = true; return; }
       nSelect++; long n = 0;
       while (true) { MessageRef rep; status_t s = t.GetNextReplyFromInternalThread(rep, 0); if (s.IsOK()) { HandleReply(rep); n++; } else { if (s != B_TIMED_OUT) Fail("poll|unexpected_status", std::string("GetNextReplyFromInternalThread(0) returned ") + s()); break; } }
@@ -302,7 +391,9 @@ struct Scenario {
       if (!P.callback) { Block(); return; }
       if (!MayBlock()) { TryDispatch(); return; }
       Note("owner blocked (untimed) on the harness ICallbackMechanism's primitive");
+      g_block[ROLE_OWNER].store(1, std::memory_order_relaxed);
       mech.WaitUntilSignalled(); nCbWaits++;
+      g_block[ROLE_OWNER].store(0, std::memory_order_relaxed);
       DoDispatch();
    }
    void PollAny() { if (P.callback && P.cbPure) TryDispatch(); else Poll(); }
@@ -339,6 +430,7 @@ struct Scenario {
    void AfterJoin()
    {
       // the internal thread is gone: its log may be read.  It leaves only on the token, and one token per request.
+      t._ptidValid.store(0, std::memory_order_relaxed);
       if (t._waitError) { Fail("internal_wait|error", t._waitErrorText); return; }
       size_t tokens = 0; for (size_t i = 0; i < t._log.size(); i++) if (t._log[i] == LOG_TOKEN) tokens++;
       if (t._log.empty() || t._log.back() != LOG_TOKEN || tokens != ownerSeqAtToken.size()) Fail("lifecycle|exit_without_token", vh::fmt("after the join the internal thread's log holds %zu tokens for %zu shutdown requests (last entry %08x)", tokens, ownerSeqAtToken.size(), t._log.empty() ? 0u : t._log.back()));
@@ -362,6 +454,32 @@ struct Scenario {
       helpersDone.fetch_add(1, std::memory_order_relaxed);
    }
    static void HelperEntry(Scenario * s, int id) { s->HelperMain(id); }
+
+   // fault dimension: SIGUSR1 (no-op handler, no SA_RESTART) thrown at the internal thread / the owner, preferably while it is at its blocking
+   // point.  Bounded (a few signals, a bounded number of looks), so that it cannot keep a deadlocked process "running" for the driver.
+   void SignallerMain()
+   {
+      hookrt::set_role(ROLE_SIGNALLER);
+      vh::Rng sr(P.cs ^ 0x5167ULL);
+      int toSend = 3 + (int)sr.R(6), budget = 3000;
+      while (toSend > 0 && budget-- > 0 && !sigStop.load(std::memory_order_relaxed)) {
+         const int target = (P.sigTarget == 2) ? (sr.R(2) ? ROLE_OWNER : ROLE_INTERNAL) : (P.sigTarget == 1) ? ROLE_OWNER : ROLE_INTERNAL;
+         const bool atBlock = g_block[target].load(std::memory_order_relaxed) == 1;
+         if (atBlock || sr.R(200) == 0) {
+            if (atBlock) usleep(30 + sr.R(200));      // from the hook into the wait call
+            pthread_rwlock_rdlock(&life);              // the owner joins the internal thread only under the exclusive lock: the id stays valid in here
+            const bool still = g_block[target].load(std::memory_order_relaxed) == 1; bool sent = false;
+            if (target == ROLE_OWNER) { pthread_kill(g_ownerTid, SIGUSR1); sent = true; }
+            else if (t._ptidValid.load(std::memory_order_acquire)) { pthread_kill((pthread_t)t._ptid.load(std::memory_order_relaxed), SIGUSR1); sent = true; }
+            pthread_rwlock_unlock(&life);
+            if (sent) { toSend--; if (atBlock && still) (target == ROLE_OWNER ? sigBlockedOwner : sigBlockedInternal).fetch_add(1, std::memory_order_relaxed); else sigElsewhere.fetch_add(1, std::memory_order_relaxed); }
+            usleep(sr.R(400));
+         }
+         else if (sr.R(4) == 0) usleep(10 + sr.R(40)); else sched_yield();
+      }
+   }
+   static void SignallerEntry(Scenario * s) { s->SignallerMain(); }
+   void StopSignaller() { if (signallerStarted) { sigStop.store(1, std::memory_order_relaxed); Note("owner joins the signaller thread"); signaller.join(); signallerStarted = false; } }
 
    void Restart()
    {
@@ -390,6 +508,7 @@ struct Scenario {
       Lock(); const bool ok = StartL(); Unlock();
       if (ok) {
          for (int h = 1; h <= P.nHelpers; h++) helpers.push_back(std::thread(HelperEntry, this, h));
+         if (P.signals) { signaller = std::thread(SignallerEntry, this); signallerStarted = true; }
          int restartsLeft = P.maxRestarts;
          // about one restart per (quota / (maxRestarts+1)) owner sends, so that restarts are spread over the run
          const int restartEvery = P.maxRestarts ? (P.perSender / (P.maxRestarts + 1)) + 1 : 0; int nextRestartAt = restartEvery;
@@ -421,6 +540,7 @@ struct Scenario {
          { MessageRef extra; status_t s = t.GetNextReplyFromInternalThread(extra, 0); if (s.IsOK()) HandleReply(extra); }   // one more than due -> the checker below says duplicate/not_sent
       }
       else for (size_t i = 0; i < helpers.size(); i++) helpers[i].join();
+      StopSignaller();
       FinalCheck();
    }
 
@@ -502,6 +622,12 @@ static void Publish(Scenario & sc, const long * hits0, const long * delays0)
       vh::stat("callback_signals_from_other_threads", sc.mech._signalsFromOthers.load()); vh::stat("callbacks_requested_during_drain", sc.mech._signalsDuringDispatch.load());
       vh::stat("callback_resignals_by_dispatcher", sc.mech._signalsFromDispatcher.load()); vh::stat("msgs_sent_from_inside_callback", sc.nCbSendsInside);
    }
+   if (P.signals) {
+      vh::stat("cases_with_signals"); vh::stat(P.sockets ? "cases_with_signals_socketpair" : "cases_with_signals_waitcondition");
+      vh::stat("signals_delivered_to_blocked_internal_thread", sc.sigBlockedInternal.load()); vh::stat("signals_delivered_to_blocked_owner_thread", sc.sigBlockedOwner.load()); vh::stat("signals_delivered_elsewhere", sc.sigElsewhere.load());
+   }
+   vh::stat("long_timed_waits", sc.nLongTimed); vh::stat("long_timed_waits_ok", sc.nLongTimedOk); vh::stat("timed_waits_started_with_message_already_queued", sc.nLongTimedAlreadyQueued + sc.nTimedAlreadyQueued);
+   vh::stat("stale_notification_histories", sc.nStaleHist); vh::stat("long_timed_wait_timeouts_unjudged", sc.nLongTimedUnjudged); vh::stat("long_timed_wait_early_returns_socketpair", sc.nLongTimedIdleSockets);
    if (sc.P.epilogue) vh::stat("cases_with_epilogue_start");
    vh::statmax("max_msgs_in_a_case", sent);
    // non-trivial: Messages were exchanged and at least one receiver reached the point of blocking on an empty queue, or the owner blocked on
@@ -518,7 +644,7 @@ static void RunCase(long k, uint64_t seed)
    const int combo = vh::has_opt("combo") ? (int)vh::optl("combo") % NCOMBO : (int)((k / NPL) % NCOMBO);
    P.sockets = COMBO[combo].sockets; P.style = COMBO[combo].style; P.callback = COMBO[combo].callback;
    P.nHelpers = g.R(4); P.replyMode = (int)g.R(8); if (P.replyMode > 3) P.replyMode = (P.replyMode & 1) ? REPLY_BURST : REPLY_ECHO;
-   P.pre = g.R(2) ? 1 + g.R(4) : 0; P.maxRestarts = g.R(3) ? g.R(4) : 0; P.epilogue = (g.R(4) == 0); P.cbPure = P.callback && g.R(2);
+   P.pre = g.R(2) ? 1 + g.R(4) : 0; P.maxRestarts = g.R(3) ? g.R(4) : 0; P.epilogue = (g.R(4) == 0); P.cbPure = P.callback && g.R(2); P.signals = (g.R(3) == 0); P.sigTarget = (int)g.R(3);
    const long target = vh::optl("msgs", 200); const int total = (int)(target / 2 + g.R((uint32_t)target));
    // ---- arm the placement of this case (no muscle thread is running now)
    hookrt::disarm_all(); hookrt::reset_ring();
@@ -613,6 +739,59 @@ static void Regress()
          vh::stat("regress_callback_request_during_drain_witnesses"); vh::stat("regress_callback_requests_signalled_during_drain", sc.mech._signalsDuringDispatch.load());
          vh::distinct(1000 + kase); P.cbScript = 2;
       }
+      if (!P.callback) {
+         // C11-5 class: a handled signal (no-op handler) that lands on the internal thread while it is blocked waiting for the next Message must not
+         // end the conversation; the same for the owner blocked in GetNextReplyFromInternalThread(MUSCLE_TIME_NEVER)
+         vh::begin_case(kase); P.k = kase++; P.cs = 600 + combo; Scenario sc(P); sc.t._announce = true;
+         sc.Lock(); sc.StartL(); sc.Unlock(); sc.OwnerSend(); DrainAllDue(sc, false);          // #1 echoed; the internal thread goes back to its wait
+         long atInternal = 0, atOwner = 0;
+         for (int round = 0; round < 3; round++) {
+            long spins = 0; while (g_block[ROLE_INTERNAL].load(std::memory_order_relaxed) != 1 && spins++ < 20000000) sched_yield();   // a running thread reaches its blocking point; bounded look
+            if (g_block[ROLE_INTERNAL].load(std::memory_order_relaxed) == 1 && sc.t._ptidValid.load()) { usleep(3000); pthread_kill((pthread_t)sc.t._ptid.load(), SIGUSR1); atInternal++; usleep(1000); }
+         }
+         for (int i = 0; i < 3; i++) sc.OwnerSend();
+         DrainAllDue(sc, false);                                                               // #2..#4 must still be answered
+         // owner side: the reply to #5 is held back until a helper has thrown the signal at the owner blocked in the untimed wait
+         sc.t.CloseGateFor(sc.ownerSeq + 1); sc.OwnerSend();
+         EchoThread * et = &sc.t; long * ao = &atOwner;
+         std::thread thrower([et, ao]() {
+            hookrt::set_role(ROLE_SIGNALLER);
+            for (int round = 0; round < 2; round++) {
+               long spins = 0; while (g_block[ROLE_OWNER].load(std::memory_order_relaxed) != 1 && spins++ < 20000000) sched_yield();
+               if (g_block[ROLE_OWNER].load(std::memory_order_relaxed) == 1) { usleep(3000); pthread_kill(g_ownerTid, SIGUSR1); (*ao)++; usleep(1000); }
+            }
+            et->OpenGate();
+         });
+         DrainAllDue(sc, false);
+         thrower.join();
+         sc.Lock(); sc.ShutdownJoinL(); sc.Unlock(); sc.FinalCheck();
+         if (!sc.bad && (sc.replyLog.size() != 5 || sc.t._log.size() != 6)) sc.Fail("regress|signal_at_blocked_thread", sc.TailOfInternalLog(10) + "; " + sc.TailOfReplyLog(10));
+         vh::stat("regress_signal_witnesses"); vh::stat("regress_signals_at_blocked_internal_thread", atInternal); vh::stat("regress_signals_at_blocked_owner_thread", atOwner);
+         vh::distinct(1000 + kase);
+      }
+      if (!P.callback) {
+         // C11-6 class: reply #1 is picked up by a poll (nobody waited for its notification: it stays pending), then the owner blocks in a timed wait
+         // with a far deadline on an empty queue and reply #2 is queued only after that: the wait must return the Message, not B_TIMED_OUT
+         vh::begin_case(kase); P.k = kase++; P.cs = 700 + combo; Scenario sc(P); sc.t._announce = true;
+         sc.Lock(); sc.StartL(); sc.Unlock(); sc.OwnerSend();
+         sc.Note("owner waits (untimed) until the internal thread has sent reply #1"); sc.t.WaitUntilRepliedTo(1);
+         sc.Poll();
+         if (!sc.bad && sc.got != 1) sc.Fail("regress|stale_notification", "the poll after SendMessageToOwner() had returned did not deliver reply #1");
+         sc.t.CloseGateFor(2); sc.OwnerSend();
+         EchoThread * et = &sc.t;
+         std::thread opener([et]() {
+            hookrt::set_role(ROLE_SIGNALLER);
+            long spins = 0; while (g_block[ROLE_OWNER].load(std::memory_order_relaxed) != 1 && spins++ < 20000000) sched_yield();   // the owner is at its blocking point inside the timed wait
+            et->OpenGate();
+         });
+         sc.LongTimed(true);
+         opener.join();
+         DrainAllDue(sc, false);
+         sc.Lock(); sc.ShutdownJoinL(); sc.Unlock(); sc.FinalCheck();
+         if (!sc.bad && sc.replyLog.size() != 2) sc.Fail("regress|stale_notification", sc.TailOfReplyLog(10));
+         vh::stat("regress_stale_notification_witnesses"); vh::stat("regress_stale_notification_histories_seen", sc.nStaleHist); vh::stat("regress_long_timed_waits_ok", sc.nLongTimedOk);
+         vh::distinct(1000 + kase);
+      }
       vh::stat("regress_combinations");
    }
 }
@@ -622,6 +801,9 @@ int main(int argc, char ** argv)
    CompleteSetupSystem css;
    vh::init(argc, argv);
    hookrt::install();          // before any thread exists
+   ::muscle::MuscleVerifHookHolder<0>::_func = MyHook;   // our bookkeeping in front of hookrt::hook
+   g_ownerTid = pthread_self();
+   { struct sigaction sa; memset(&sa, 0, sizeof(sa)); sa.sa_handler = NoOpSignalHandler; sigemptyset(&sa.sa_mask); sa.sa_flags = 0; if (sigaction(SIGUSR1, &sa, NULL) != 0) { fprintf(stderr, "HARNESS-ABORT: sigaction\n"); abort(); } }
    hookrt::set_role(ROLE_OWNER);
    vh::Ctx & c = vh::ctx();
    if (vh::opt("mode", "run") == "regress") { Regress(); return vh::finish(); }
